@@ -294,7 +294,7 @@ Exec(s) ==
                           [] OTHER -> [k \in 1..Len(v.o) |-> PV(Str(v.o[k][1]), v.o[k][2])]
               IN CASE ok = "panic" -> Panic(s, "pathIntact: top of paths is not a path value")
                    [] ok = "oom" -> Oom(s)
-                   [] ok = "no" -> Fail(s1, ErrV(Opaque))
+                   [] ok = "no" -> Fail(Push(s1, [t |-> "emptyiter"]), ErrV(Opaque))     \* the operand is replaced by an empty iterator for the re-execution on the next call
                    [] Len(xs) = 0 -> Break(s1)
                    [] OTHER ->
                         LET s2 == IF Len(xs) > 1 THEN Pop(PushFork(Push(s1, [t |-> "pvs", xs |-> Tail(xs)]), s.pc)) ELSE s1
